@@ -93,6 +93,7 @@ func (a *aofRun) rewriteConc(i int) (int, bool) {
 	last := a.states[len(a.states)-1]
 	phaseStart := last
 	crashAt := int(p.Ops[i].N) // 0 = no crash inside the phase
+	directed, sawHeld, holdSteps := len(ws) > 0 && a.dice.Next(3) == 0, false, 0
 	for step := 0; step < 4000; step++ {
 		if crashAt > 0 && step == crashAt && len(ws) > 0 {
 			return consumed, a.crashInConc(phaseStart, ws2groups(len(ws), func(j int) ([]string, bool) { return ws[j].keys, ws[j].res != nil }), rw != nil)
@@ -111,6 +112,38 @@ func (a *aofRun) rewriteConc(i int) (int, bool) {
 			continue
 		}
 		tk, stuck := PickFair(parked, a.dice.Next(len(parked)), 300)
+		// directed third of the phases: a writer is taken to the point between its handler and its log append and
+		// held there while the rewrite gets every step it can take - the window in which a rewrite must not run
+		if directed && !stuck {
+			var held, rwT *Task
+			for _, x := range parked {
+				if x.Site == "cmd.after_handler" {
+					held = x
+				}
+				if strings.Contains(x.Name, "rw") && strings.Contains(x.Name, "rewriteaof") || x.Site == "rewrite.lock" || x.Site == "rewrite.after_preamble" || strings.HasPrefix(x.Site, "getState") || x.Site == "spin:getState.wait" {
+					rwT = x
+				}
+			}
+			switch {
+			case held == nil && !sawHeld:
+				for _, x := range parked {
+					if strings.Contains(x.Name, "w") && !strings.Contains(x.Name, "rw") && x != rwT {
+						tk = x
+						break
+					}
+				}
+			case held != nil:
+				sawHeld = true
+				if rwT != nil && rwT.Spins < 5 && holdSteps < 60 {
+					tk = rwT
+					holdSteps++
+				} else {
+					directed = false
+				}
+			default:
+				directed = false
+			}
+		}
 		s.noteChoice(len(parked), tk.Site)
 		if stuck {
 			a.fail("livelock/"+tk.Site, fmt.Sprintf("REWRITEAOF with concurrent writers %v: task t%d spun %d times at %s and nothing else can change the flag", a.names[len(a.names)-len(ws):], tk.ID, tk.Spins, tk.Site))
